@@ -394,9 +394,13 @@ def check_core(case, desc, noises, circ, objs, sub, icls, cl, nontrivial):
             raise Violation(sub, "fidelity-mismatch", "stab-vs-dm", icls, "sum p_i |<t|s_i>|^2 = %.10g, <t|rho|t> = %.10g" % (got, want))
         if trace_ref > 1e-12:
             target = QuantumState(gs.clifford_tableau(S, D, n), rep_type="s")
-            inf = guarded(sub, icls, Infidelity(target).evaluate, sst, circ)
+            metric = Infidelity(target)
+            inf = guarded(sub, icls, metric.evaluate, sst, circ)
             if abs((1 - inf) - want) > 1e-8:
                 raise Violation(sub, "infidelity-metric", "Infidelity(stab)", icls, "1 - infidelity = %.10g, reference %.10g" % (1 - inf, want))
+            inf2 = guarded(sub, icls, metric.evaluate, sst, circ)
+            if abs(inf2 - inf) > 1e-12:
+                raise Violation(sub, "infidelity-metric", "Infidelity(stab)", icls, "second evaluation on the same state: %.10g, first %.10g" % (inf2, inf))
     # (c) switches: noise simulation off reproduces the noiseless state
     rho0, _, _ = reference(desc, circ, noise_on=False, objs=objs, noises=noises)
     for backend in ("dm", "stab"):
